@@ -157,12 +157,14 @@ Fixpoint padn (k : nat) (n : N) : str :=
   end.
 Definition strf_piece (v : dtv) (t : dtag) : str :=
   match t with
-  | TY => N_to_str (yr v)            (* glibc %Y: no padding (years below 1000 lose digits) *)
+  | TY => padn 4 (yr v)              (* to_er7 formats the year itself: '{0:04d}'.format(value.year) *)
   | Tm => padn 2 (mo v) | Td => padn 2 (dy v) | TH => padn 2 (hh v)
   | TMi => padn 2 (mi v) | TS => padn 2 (ss v)
   | Tdot => [c_dot]
   | Tf => padn 6 (us v)
   end.
+(* DateTimeDataType.to_er7: strftime on the format whose %Y was replaced by the four-digit year
+   (years are 1..9999, so the year text is always exactly four digits on every platform) *)
 Definition strftime (v : dtv) (f : list dtag) : str := flat_map (strf_piece v) f.
 
 (* ------------------------------------------------------------------ *)
@@ -570,8 +572,6 @@ Definition nm_small (s : str) : bool :=
 (* ------------------------------------------------------------------ *)
 (* views used by the theorems                                           *)
 Definition accepts {A} (r : result A) : bool := is_ok r.
-Definition year_ge_1000 (s : str) : bool :=
-  match s with y1 :: _ => negb (is_c c_0 y1) | [] => false end.
 
 (* ------------------------------------------------------------------ *)
 (* explicitly characterised defect families (finding F10)              *)
